@@ -328,6 +328,9 @@ def _p_fstruct(P):
         P.call("fs_mk", [V("int:%d" % a, a), V("int:%d" % b, b)])
     sargs = [("cdata:struct {3,4}", lambda ffi: ffi.new("struct fs_pt *", [3, 4])[0]),
              V("dict:{x:3,y:4}", {"x": 3, "y": 4}), V("list:[3,4]", [3, 4]),
+             # partial initializers right after full ones: the unnamed fields are zero, not what an earlier call left
+             V("list:[7]", [7]), V("dict:{y:9}", {"y": 9}), V("list:[]", []), V("dict:{}", {}),
+             V("tuple:(30,40)", (30, 40)), V("tuple:(8,)", (8,)), V("dict:{x:6}", {"x": 6}),
              V("list:[1,2,3]", [1, 2, 3]), V("dict:{z:1}", {"z": 1}), V("dict:{x:2**40}", {"x": 2 ** 40}),
              V("list:[1,'a']", [1, "a"]), V("int:5", 5), V("None", None), V("str:ab", "ab"),
              ("cdata:struct fs_big", lambda ffi: ffi.new("struct fs_big *")[0]),
@@ -355,6 +358,9 @@ def _p_fstruct(P):
     P.rec("call", "fs_bigsum(fs_bigmk(2))", lambda: P.lib.fs_bigsum(P.lib.fs_bigmk(2)))
     P.call("fs_bigsum", [V("dict:{a:[1,2,3,4,5],c:b'A'}", {"a": [1, 2, 3, 4, 5], "c": b"A"})])
     P.call("fs_bigsum", [V("dict:{a:[1,2,3,4,5,6]}", {"a": [1, 2, 3, 4, 5, 6]})])
+    P.call("fs_bigsum", [V("dict:{a:[7]}", {"a": [7]})])
+    P.call("fs_bigsum", [V("dict:{c:b'B'}", {"c": b"B"})])
+    P.call("fs_bigsum", [V("list:[]", [])])
 
 
 # =======================================================================================
@@ -557,18 +563,24 @@ def _p_enum(P):
 @item("enum2",
       "typedef enum { E2_A = -1, E2_B = 1, ... } e2_t;\nenum e2_big { E2_BIG = 4294967295 };\nenum { E2_ANON = 9 };\n"
       "enum e2_part { E2_P1, E2_P2, ... };\nenum e2_huge { E2_H = 9223372036854775807, E2_HN = -1 };\n"
-      "e2_t e2_id(e2_t);\nenum e2_big e2_bigid(enum e2_big);\nenum e2_huge e2_hugeid(enum e2_huge);\n",
+      "e2_t e2_id(e2_t);\nenum e2_big e2_bigid(enum e2_big);\nenum e2_huge e2_hugeid(enum e2_huge);\n"
+      "enum e2_mix { E2_MN = -1, E2_MZ, E2_MT = 0x80000000 };\nenum e2_mix e2_mixid(enum e2_mix);\n"
+      "enum e2_mix2 { E2_NN = -2147483648, E2_NT = 4294967295 };\nstruct e2_s { char c; enum e2_mix m; };\n",
       "typedef enum { E2_A = -1, E2_B = 1, E2_C = 2 } e2_t;\nenum e2_big { E2_BIG = 4294967295U };\nenum { E2_ANON = 9 };\n"
       "enum e2_part { E2_P0, E2_P1 = 10, E2_P2 = 20 };\nenum e2_huge { E2_H = 9223372036854775807LL, E2_HN = -1 };\n"
       "e2_t e2_id(e2_t x) { return x; }\nenum e2_big e2_bigid(enum e2_big x) { return x; }\n"
-      "enum e2_huge e2_hugeid(enum e2_huge x) { return x; }\n",
-      ["E2_A", "E2_B", "E2_BIG", "E2_ANON", "E2_P1", "E2_P2", "E2_H", "E2_HN", "e2_id", "e2_bigid", "e2_hugeid"])
+      "enum e2_huge e2_hugeid(enum e2_huge x) { return x; }\n"
+      "enum e2_mix { E2_MN = -1, E2_MZ, E2_MT = 0x80000000 };\nenum e2_mix e2_mixid(enum e2_mix x) { return x; }\n"
+      "enum e2_mix2 { E2_NN = -2147483648, E2_NT = 4294967295 };\nstruct e2_s { char c; enum e2_mix m; };\n",
+      ["E2_A", "E2_B", "E2_BIG", "E2_ANON", "E2_P1", "E2_P2", "E2_H", "E2_HN", "E2_MN", "E2_MZ", "E2_MT", "E2_NN", "E2_NT",
+       "e2_id", "e2_bigid", "e2_hugeid", "e2_mixid"])
 def _p_enum2(P):
     ffi, lib = P.ffi, P.lib
     P.exposed(ITEM["enum2"]["names"])
-    for n in ("E2_A", "E2_B", "E2_BIG", "E2_ANON", "E2_P1", "E2_P2", "E2_H", "E2_HN"):
+    for n in ("E2_A", "E2_B", "E2_BIG", "E2_ANON", "E2_P1", "E2_P2", "E2_H", "E2_HN", "E2_MN", "E2_MZ", "E2_MT", "E2_NN", "E2_NT"):
         P.rec("constant", n, lambda: getattr(lib, n))
-    for T in ("e2_t", "enum e2_big", "enum e2_part", "enum e2_huge"):
+    P.layout("struct e2_s")
+    for T in ("e2_t", "enum e2_big", "enum e2_part", "enum e2_huge", "enum e2_mix", "enum e2_mix2"):
         P.layout(T, fields=False)
         P.rec("layout", T + " elements", lambda: sorted(ffi.typeof(T).relements.items()))
         P.rec("layout", T + " cast -1", lambda: ffi.cast(T, -1))
@@ -578,6 +590,7 @@ def _p_enum2(P):
         P.call("e2_id", [a])
         P.call("e2_bigid", [a])
         P.call("e2_hugeid", [a])
+        P.call("e2_mixid", [a])
 
 
 # =======================================================================================
